@@ -78,9 +78,9 @@ def canary_job(args):
     return j.run()
 
 
-def run(prop, jobs, design_ref, extra_assumptions=(), functions_note="", extra_results=None, post=None):
+def run(prop, jobs, design_ref, extra_assumptions=(), functions_note="", extra_results=None, post=None, t_start=None):
     report = C.Report(prop)
-    t0 = time.time()
+    t0 = t_start or time.time()
     if C.tier() == "thorough":
         os.environ.setdefault("VERIF_REFUTER_POINTS", "32")
         enginea.NPOINTS = int(os.environ["VERIF_REFUTER_POINTS"])
